@@ -46,9 +46,15 @@ func verifErrClass(err error) int {
 	return 1
 }
 
-// verifHeld tells whether the caller is inside the critical section that protects the line table (1) or not (0).
-// The line table has no lock of its own: accesses are ordered only by the channels between the goroutines.
-func verifHeld(lc *lineCalc) int { return 0 }
+// verifHeld tells whether the caller is inside the critical section that protects the line table (1) or not (0):
+// if the mutex can be taken here, nobody holds it, so the access being reported is not protected by it.
+func verifHeld(lc *lineCalc) int {
+	if lc.mu.TryLock() {
+		lc.mu.Unlock()
+		return 0
+	}
+	return 1
+}
 
 func verifB(b bool) int {
 	if b {
